@@ -376,3 +376,28 @@ def selftest():
 if __name__ == "__main__":
     f = selftest()
     print("\n".join(f) if f else "gost28147 oracle ok")
+
+
+# ---------------------------------------------------------------------------
+# Independent transcription of the RFC 4357 (test, CryptoPro-A..D) and tc26-Z S-boxes, typed in by a second party
+# (the author of seeded/c08-b-*: it never saw this oracle) and equal to the header's tables on the pinned tree.
+# Row 0 = K1 (lowest nibble) ... row 7 = K8.  Used to notice a transposition inside the header's own tables,
+# which the header-parsed oracle alone cannot see.
+REFERENCE_TABLES = {
+    'testparamset': bytes.fromhex('040a09020d08000e060b010c070f05030e0b040c060d0f0a02030801000705090508010d0a0304020e0f0c070600090b070d0a010008090f0e04060c0b020503060c0701050f0d08040a090e00030b02040b0a000702010d03060805090c0f0e0d0b0401030f0509000a0e070608020c010f0d0005070a040902030e060b080c'),
+    'cryptopro_a': bytes.fromhex('09060302080b01070a040e0f0c000d0503070e09080a0f000502060c0b040d010e0406020b030d080c0f050a000701090e070a0c0d01030900020b040f0805060b050109080d0f000e0402030c070a06030a0d0c0102000b07050904080f0e06010d0209070a0600080c04050f030b0e0b0a0f05000c0e080602030901070d04'),
+    'cryptopro_b': bytes.fromhex('08040b0103050009020e0a0c0d06070f0001020a040d050c0907030f0b08060e0e0c000a09020d0b0705080f030601040705000d0b060102030a0c0f040e090802070c0f09050a0b0104000d06080e0308030206040d0e0b0c01070f0a00090505020a0b09010c0307040d00060f080e00040b0e080307010a0209060f0d050c'),
+    'cryptopro_c': bytes.fromhex('010b0c02090d000f0405080e0a0706030001070d0b040502080e0f0c090a06030802050004090f0a03070c0d060e010b03060001050d0a080b0209070e0f0c04080d0b000405010209030c0e060f0a070c090b01080e0204070306050a000f0d0a0906080d0e02000f03050b04010c07070400050a020f0e0c06010b0d090308'),
+    'cryptopro_d': bytes.fromhex('0f0c020a0604050007090e0d010b08030b0603040c0f0e02070d0800050a0901010c0b000f0e06050a0d04080903070201050e0c0a07000d06020b0409030f08000c08090d020a0b07030605040e0f0108000f0302050e0b010a04070c090d060300060f010e09020d080c040b0a0507010a06080f0b00040c030509070d020e'),
+    'param_z': bytes.fromhex('0c0406020a050b090e080d0700030f0106080203090a050c010e04070b0d000f0b030508020f0a0d0e0107040c0906000c0802010d040f0607000a05030e090b070f050a0801060d0009030e0b04020c050d0f0609020c0a0b07080104030e00080e02050609010c0f040b000d0a030701070e0d00050803040f0a06090c0b02'),
+}
+
+
+def compare_with_reference(sboxes):
+    """-> list of (header table name, first differing index) for built-in sets that differ from REFERENCE_TABLES."""
+    out = []
+    for fragment, ref in REFERENCE_TABLES.items():
+        for name, tab in sboxes.items():
+            if fragment in name.lower() and tab != ref:
+                out.append((name, next(i for i in range(128) if tab[i] != ref[i])))
+    return out
